@@ -763,3 +763,57 @@ func (c *fctx) funcLit(x *ast.FuncLit) string {
 	})
 	return fmt.Sprintf("(fun %s =>\n%s)", strings.Join(binders, " "), indent(body, "  "))
 }
+
+// ifaceResult: component i of the multi-valued opaque call rhs is an interface value that is
+// bound (with :=) to the fresh local variable l.  Such a value has no Gallina counterpart;
+// the variable may only be used as the receiver of opaque method calls, which become
+// uninterpreted parameters ("for every kernel that prepare() may return").
+func (c *fctx) ifaceResult(rhs ast.Expr, i int, l ast.Expr) bool {
+	call, ok := unparen(rhs).(*ast.CallExpr)
+	if !ok {
+		return false
+	}
+	f := c.calledFunc(call)
+	if f == nil {
+		return false
+	}
+	if _, isOpaque := c.opaqueName(f); !isOpaque {
+		return false
+	}
+	sig := f.Type().(*types.Signature)
+	if i >= sig.Results().Len() || sig.Results().Len() < 2 {
+		return false
+	}
+	rt := sig.Results().At(i).Type()
+	if !isInterface(rt) || isErrorType(rt) {
+		return false
+	}
+	id, isId := l.(*ast.Ident)
+	if !isId {
+		c.fail(l.Pos(), "interface result of an opaque call assigned to something other than a new variable")
+	}
+	if id.Name == "_" {
+		return true
+	}
+	v, _ := c.info.Defs[id].(*types.Var)
+	if v == nil {
+		c.fail(l.Pos(), "interface result of an opaque call assigned to an existing variable")
+	}
+	// never assigned again
+	n := 0
+	ast.Inspect(c.u.decl.Body, func(nd ast.Node) bool {
+		if as, ok := nd.(*ast.AssignStmt); ok {
+			for _, x := range as.Lhs {
+				if xi, ok := x.(*ast.Ident); ok && (c.info.Defs[xi] == v || c.info.Uses[xi] == v) {
+					n++
+				}
+			}
+		}
+		return true
+	})
+	if n != 1 {
+		c.fail(l.Pos(), "interface variable %s is assigned more than once", id.Name)
+	}
+	c.ifaceLocals[v] = true
+	return true
+}
